@@ -478,7 +478,8 @@ def load_known(prop):
         if os.path.exists(p):
             with open(p) as f:
                 allk.extend(json.load(f))
-    return [k for k in allk if k.get("property") == prop or prop in k.get("also", [])]
+    # "also" is documentation only: the predicate of a record lives in the module of its own property
+    return [k for k in allk if k.get("property") == prop]
 
 
 # ------------------------------------------------------------------ main
